@@ -28,7 +28,8 @@ def config_handler(quick):
     calls came in between."""
     c = config(quick)
     c.update(max_loggers=2, acts=["Set", "New", "MkHandler", "HEmit"], opt_lists=[[]],
-             setter_args={"JSONMode": [(1, 0), (3, 0)], "ColorMode": [(1, 0), (3, 0)]},
+             # (writer 53 is an *os.File on a regular disk file: where the records go does not decide their format)
+             setter_args={"JSONMode": [(1, 0), (3, 0)], "ColorMode": [(1, 0), (3, 0)], "Writer": [(53, 0)]},
              handler_opts=[dict(), dict(json=True), dict(nocolor=True, nosource=True)] + ([] if quick else [dict(json=True, nocolor=True, level=4)]),
              max_handlers=1 if quick else 2, flag_sets=[["caller"]], probe_sevs=[4, 2, 13])
     return c
